@@ -728,6 +728,52 @@ theorem fds_execP (fdin : Option Handle) (tr : Trace) (ds : List Handle) (m : Ha
     | name n => exact h.failed rfl (by intro v hv; cases hv)
     | eof => exact h.failed rfl (by intro v hv; cases hv)
 
+/-! ## expr.c: the conditions that call the operating system during evaluation -/
+
+/-- One question of evaluation: a `command` condition runs `exec(argv, -1)` - its `fork` finds the descriptor table of
+`ForkFds` with the directory streams `ds`, the message's descriptor `m` and `/dev/null` as the child's standard input -, an
+`isdirectory` or file-time `date` condition calls `stat`; the descriptor table is afterwards what it was. -/
+theorem fds_sysCall (q : Req) (tr : Trace) (ds : List Handle) (m : Handle) (hds : ds.length ≤ 2)
+    (hop : ∀ d ∈ ds, Opened tr d) (hm : OpenedRd tr m) (h : FdsAre tr (ds ++ [m])) :
+    wp R ForkI (sysCall q) (fun _ tr' => FdsAre tr' (ds ++ [m])) tr := by
+  cases q with
+  | command av =>
+    unfold sysCall
+    refine wp_bind_ext (fds_execP none tr ds m hds hop hm (by simpa using h) (by intro fd e; cases e)) ?_
+    intro rc L hL
+    have hL' : FdsAre (tr ++ L) (ds ++ [m]) := by simpa using hL
+    exact hL'
+  | isDir p =>
+    unfold sysCall
+    simp only [call_bind, ret_bind]
+    refine wp_call (by plain) fun r _ => ?_
+    exact h.other rfl (.inl rfl)
+  | fileTime p f =>
+    unfold sysCall
+    simp only [call_bind, ret_bind]
+    refine wp_call (by plain) fun r _ => ?_
+    exact h.other rfl (.inl rfl)
+
+/-- A computation that asks, as a program: every `fork` is the one of a `command` condition. -/
+theorem fds_toProg {α} (t : Ask α) : ∀ (tr : Trace) (ds : List Handle) (m : Handle), ds.length ≤ 2 →
+    (∀ d ∈ ds, Opened tr d) → OpenedRd tr m → FdsAre tr (ds ++ [m]) →
+    wp R ForkI t.toProg (fun _ tr' => FdsAre tr' (ds ++ [m])) tr := by
+  induction t with
+  | ret a => intro tr ds m _ _ _ h; exact h
+  | ask q k ih =>
+    intro tr ds m hds hop hm h
+    simp only [Ask.toProg]
+    refine wp_bind_ext (fds_sysCall q tr ds m hds hop hm h) ?_
+    intro a L hL
+    exact ih a (tr ++ L) ds m hds (fun d hd => (hop d hd).mono L) (hm.mono L) hL
+
+/-- `expr_eval` in the run: the descriptors open at the `fork` of a `command` condition are the directory stream of the
+maildir, the descriptor of the message and `/dev/null`; evaluation leaves the descriptor table as it found it. -/
+theorem fds_evalP (env : Env) (e : Expr) (msg : Msg) (fl : MFlags) (tr : Trace) (ds : List Handle) (m : Handle)
+    (hds : ds.length ≤ 2) (hop : ∀ d ∈ ds, Opened tr d) (hm : OpenedRd tr m) (h : FdsAre tr (ds ++ [m])) :
+    wp R ForkI (evalP env e msg fl) (fun _ tr' => FdsAre tr' (ds ++ [m])) tr :=
+  fds_toProg _ tr ds m hds hop hm h
+
 /-! ## match.c: `matches_exec` -/
 
 /-- The directory stream of the maildir the message has been moved to, if the source has changed. -/
@@ -1041,7 +1087,11 @@ theorem fds_processMessage (env : PEnv) (orc : EvalOracles) (expr : Expr) (md : 
       | none => exact ⟨rfl, hpm⟩
       | some ms =>
         obtain ⟨fd, hfd, hrd, hS⟩ := hpm
-        exact fds_afterVerdict env md name st ms _ _ d fd hd ((hop d hd).mono _) hfd hrd hS
+        unfold afterParse evalMs
+        refine wp_bind_ext (fds_evalP _ expr ms.msg ms.flags (tr ++ L) [d] fd (by simp)
+          (by intro x hx; simp only [List.mem_singleton] at hx; subst hx; exact (hop x hd).mono _) hrd hS) ?_
+        intro ev L2 hL2
+        exact fds_afterVerdict env md name st ms _ _ d fd hd (((hop d hd).mono _).mono _) hfd (hrd.mono _) hL2
 
 /-! ## a maildir -/
 
@@ -1167,8 +1217,8 @@ theorem fds_maildirStdin (env : PEnv) (input : Bytes) (tr : Trace) (h : FdsAre t
   | err e => exact none0 _ _ rfl h1
   | eof => exact none0 _ _ rfl h1
 
-theorem fds_closeStdin (md : Maildir) (tr : Trace) (h : FdsAre tr md.dirH.toList) :
-    wp R ForkI (closeStdin md) (fun _ tr' => FdsAre tr' []) tr := by
+theorem fds_closeStdin (fuel : Nat) (md : Maildir) (tr : Trace) (h : FdsAre tr md.dirH.toList) :
+    wp R ForkI (closeStdin fuel md) (fun _ tr' => FdsAre tr' []) tr := by
   unfold closeStdin
   cases hdir : md.dirH with
   | none =>
@@ -1183,7 +1233,7 @@ theorem fds_closeStdin (md : Maildir) (tr : Trace) (h : FdsAre tr md.dirH.toList
     simp only [bind_eq, pure_eq, call_bind, call_bind', ret_bind]
     refine wp_call (by plain) fun r0 _ => ?_
     have h0 : FdsAre (tr ++ [(Call.rewinddir d, r0)]) [d] := h.other rfl (.inl rfl)
-    refine wp_bind_ext (wp_nofd' (nofd_closeLoop d 64) h0) ?_
+    refine wp_bind_ext (wp_nofd' (nofd_closeLoop d fuel) h0) ?_
     intro _ L hL
     refine wp_call (by plain) fun r1 _ => ?_
     refine wp_call (by plain) fun r2 _ => ?_
@@ -1206,12 +1256,12 @@ theorem fds_paths (env : PEnv) (orc : EvalOracles) (input : Bytes) (b : ConfBloc
       · refine wp_bind_ext (fds_maildirStdin env input tr h) ?_
         rintro x L ⟨hop, hx⟩
         split
-        · refine wp_bind_ext (fds_closeStdin x.1 _ hx) ?_
+        · refine wp_bind_ext (fds_closeStdin _ x.1 _ hx) ?_
           intro _ L2 h2
           exact ih _ _ h2
-        · refine wp_bind_ext (fds_walk env orc b.expr 64 x.1 _ _ hop hx) ?_
+        · refine wp_bind_ext (fds_walk env orc b.expr _ x.1 _ _ hop hx) ?_
           rintro y L2 ⟨hop2, hy⟩
-          refine wp_bind_ext (fds_closeStdin y.2 _ hy) ?_
+          refine wp_bind_ext (fds_closeStdin _ y.2 _ hy) ?_
           intro _ L3 h3
           exact ih _ _ h3
       · split
